@@ -319,7 +319,7 @@ def run_case(layout: list[str], ns: str, cwd_kind: str, mp_kind: str, mp_via: st
                      and os.path.normpath(os.path.join(_case_root, s["base_dir"])) in base_set and c18_gen.valid_modname(s["module"])
                      and s["module"] != "__main__"]
             rng2.shuffle(cands)
-            for s in cands[:1]:
+            for s in cands[:2]:
                 go(f"-m:{s['module']}", ["-m", s["module"]])
                 go(f"fileof:{s['module']}", [s["given"]])
                 out["modules"].append({"module": s["module"], "file": s["path"], "m_run": len(out["runs"]) - 2,
